@@ -21,6 +21,7 @@ export const assumptions = [
 const EXPECT = {
   'missing-end-tag': ['missing end tag', LEVEL.Warn],
   'cut-start-tag': ['incomplete tag', LEVEL.Fatal],
+  'cut-end-tag': ['incomplete tag', LEVEL.Fatal],
   'unterminated-binding': ['missing expression end', LEVEL.Fatal],
   'trailing-garbage': ['unexpected character inside expression', LEVEL.Fatal],
   'unknown-wx-directive': ['invalid attribute prefix', LEVEL.Warn],
@@ -84,6 +85,13 @@ function inject(rng, fs_, st) {
       const tail = rng.pick(['<' + tag, '<' + tag + ' ', '<' + tag + ' a', '<' + tag + ' a="1"', '<' + tag + ' a="1" ', '<' + tag + ' wx:if="{{a}}"', '<' + tag + '\n', '<' + tag + ' /'])
       return { text: text + tail, kind, site: 'end of input: ' + JSON.stringify(tail) }
     }
+    case 'cut-end-tag': {
+      // the last end tag of the input lacks its `>`
+      const text = printMain(file)
+      const tag = rng.pick(['view', 'a', 'block'])
+      const tail = rng.pick(['<' + tag + '>x</' + tag, '<' + tag + '>x</' + tag + ' ', '<' + tag + '>x</' + tag + '\n', '<' + tag + ' a="1"><b/></' + tag])
+      return { text: text + tail, kind, site: 'end of input: ' + JSON.stringify(tail) }
+    }
     case 'unterminated-binding': {
       const text = printMain(file)
       const tail = rng.pick(['{{ a', '{{a.b', 'x{{ a + ', '{{ "s" ', '<a v="{{ a', '{{ a }', '{{ [a, b] ', '{{'])
@@ -109,7 +117,7 @@ function inject(rng, fs_, st) {
       if (kind === 'unknown-wx-directive') extra = [{ fam: 'plain', name: 'wx:' + rng.pick(['foo', 'iff', 'for-items', 'show', 'else-if']), value: M.sv('1') }]
       else if (kind === 'unknown-prefix') extra = [{ fam: 'plain', name: rng.pick(['zz', 'on', 'binds', 'v-bind', 'x.y']) + ':' + rng.pick(['a', 'tap']), value: M.sv('1') }]
       else {
-        const cands = t.attrs.filter((a) => ['plain', 'id', 'class', 'style', 'slot', 'data:', 'mark', 'model', 'change', 'worklet', 'generic', 'extra-attr'].includes(a.fam))
+        const cands = t.attrs.filter((a) => ['plain', 'id', 'class', 'style', 'slot', 'data:', 'mark', 'model', 'change', 'worklet', 'generic', 'extra-attr'].includes(a.fam)) // (several event bindings of one name are legal: the pinned test parse::tag::test::event_listener keeps both)
         if (!cands.length) extra = [{ fam: 'plain', name: 'dup', value: M.sv('1') }, { fam: 'plain', name: 'dup', value: M.sv('2') }]
         else extra = [clone(rng.pick(cands))]
       }
